@@ -476,6 +476,10 @@ func runAttack(t *testing.T, rc *simrt.Config, prop string, tape *simrt.Tape, ke
 		out.LogText = s.w.Log.Text()
 		out.Steps = s.w.Step
 		out.Sig = out.LogHash
+		if s.cfg != nil && s.cfg.W <= 3 && s.cfg.M <= 3 {
+			// distinct event sequences are also counted per small (workers, max-workers) configuration
+			out.Sig = fmt.Sprintf("W%dM%d/%s", s.cfg.W, s.cfg.M, out.LogHash)
+		}
 	}
 	out.Stats = s.stats
 	nt := 0
